@@ -22,7 +22,7 @@ func init() {
 			}
 			return 60000
 		},
-		Rule: "case = one (state recipe, operation): the state (fully persisted and re-opened / persisted with a dirty in-memory path / in memory only / one delete away from a shrink / just grown / a high-layer key whose left child alone is a private in-memory node; bf 2-16; int, string, user and struct keys - struct keys marshal for both layer and order) is rebuilt from its seed for every run; a counting pass records how many Load, KeyCompare and Marshal calls the operation (Insert new/update, Delete, Get, Iter, SeekIter, DiffIter, DiffLinks, Clone, Cursor+Ceil+Forward+Backward) makes; then for EVERY index i of each kind (quick: first 24 per kind; thorough: first 80, plus sampled pairs) the i-th call is made to fail; if the operation returns an error, the full dump, Size and Height read with faults cleared must equal the pre-state and the same call must then succeed with the model's normal result; operations that absorb the fault (return nil) or panic under the fault are counted, not judged; non-trivial = a fault that was hit and surfaced as an error; distinct by (state, op, kind, index)",
+		Rule: "case = one (state recipe, operation): the state (fully persisted and re-opened / persisted with a dirty in-memory path / in memory only / one delete away from a shrink / just grown / a high-layer key whose left child alone is a private in-memory node / low-layer keys at the grow threshold with an absent higher-layer key to insert / an absent higher-layer key whose split seam runs through private nodes with store-only children; bf 2-16; int, string, user and struct keys - struct keys marshal for both layer and order) is rebuilt from its seed for every run; a counting pass records how many Load, KeyCompare and Marshal calls the operation (Insert new/update, Delete, Get, Iter, SeekIter, DiffIter, DiffLinks, Clone, Cursor+Ceil+Forward+Backward) makes; then for EVERY index i of each kind (quick: first 24 per kind; thorough: first 80, plus sampled pairs) the i-th call is made to fail; if the operation returns an error, the full dump, Size and Height read with faults cleared must equal the pre-state and the same call must then succeed with the model's normal result; operations that absorb the fault (return nil) or panic under the fault are counted, not judged; non-trivial = a fault that was hit and surfaced as an error; distinct by (state, op, kind, index)",
 		Assumptions: []string{
 			"the statement only covers calls that RETURN an error; faults swallowed by the operation and panics raised from a failing callback are outside it and are reported as observations (absorbed_faults, panics_under_fault)",
 		},
@@ -144,6 +144,70 @@ func buildC12(seed uint64, cfg kinds.Cfg, recipe int) (*c12state, error) {
 		}
 		// j = smallest key of the target's left subtree: touching it dirties the left child's path, not its last child
 		err = s.ins(e, s.M.Keys[j], diffValOf(cfg.VK, r, s.M.Vals[j]))
+	case 6: // before_grow: keys of low layers only, size at or over the grow threshold, everything
+		// persisted; the target is an ABSENT key of a higher layer whose insert makes the tree grow
+		{
+			L := r.Intn(2)
+			s2, e2 := newSide(e)
+			if e2 != nil {
+				err = e2
+				break
+			}
+			var hi interface{}
+			cnt := 0
+			big := cfg.KK.Pool(r, cfg.BF, 400)
+			for _, k := range big {
+				l := cfg.KK.Layer(k, cfg.BF)
+				if l > L && hi == nil {
+					hi = k
+					continue
+				}
+				if l <= L && cnt < 140 {
+					if err = s2.ins(e, k, cfg.VK.Gen(r)); err != nil {
+						break
+					}
+					cnt++
+				}
+			}
+			if err != nil || hi == nil {
+				break
+			}
+			s = s2
+			st.target = hi
+			err = s.persist(e, true)
+			if err == nil && r.Bool() { // and a dirty path somewhere
+				_, err = s.edits(e, r, big[:20], 1, false)
+				if _, still := s.M.Get(hi); still {
+					st.target = nil
+				}
+			}
+		}
+	case 7: // dirty_seam_of_new_key: everything persisted, then the smallest key of the range just left of an
+		// absent higher-layer key is touched, so that the seam a split for that key must cut passes
+		// through private in-memory nodes with store-only children
+		if err = s.persist(e, true); err != nil {
+			break
+		}
+		for try := 0; try < 40 && st.target == nil; try++ {
+			k := pool[r.Intn(len(pool))]
+			if _, present := s.M.Get(k); present || cfg.KK.Layer(k, cfg.BF) < 1 {
+				continue
+			}
+			i, _ := s.M.Find(k) // keys[i-1] < k < keys[i]
+			if i < 2 || i >= s.M.Len() {
+				continue
+			}
+			lt := cfg.KK.Layer(k, cfg.BF)
+			j := i - 1
+			for j > 0 && cfg.KK.Layer(s.M.Keys[j-1], cfg.BF) < lt {
+				j--
+			}
+			if j == i-1 {
+				continue
+			}
+			st.target = k
+			err = s.ins(e, s.M.Keys[j], diffValOf(cfg.VK, r, s.M.Vals[j]))
+		}
 	default: // just grown: insert until the height went up, then persist+reopen half of the time
 		h0 := s.T.Height()
 		for i := 0; err == nil && s.T.Height() == h0 && i < 200; i++ {
@@ -279,11 +343,14 @@ func runC12(c *fw.C) {
 	if r.Chance(1, 6) {
 		cfg.Cache = "big"
 	}
-	recipe := c.Idx % 6
+	recipe := c.Idx % 8
 	seed := r.U64()
-	opKind := c12ops[(c.Idx/6)%len(c12ops)]
-	if recipe == 5 && c.Idx%2 == 1 {
+	opKind := c12ops[(c.Idx/8)%len(c12ops)]
+	if recipe == 5 && (c.Idx/8)%2 == 1 {
 		opKind = "delete" // the recipe is built around deleting its target key
+	}
+	if (recipe == 6 || recipe == 7) && (c.Idx/8)%4 != 3 {
+		opKind = "insert_new" // these recipes are built around inserting their (absent) target key
 	}
 	st, err := buildC12(seed, cfg, recipe)
 	if err != nil {
@@ -298,6 +365,11 @@ func runC12(c *fw.C) {
 			if _, ok := st.m.Find(k); !ok {
 				op.key = k
 				break
+			}
+		}
+		if st.target != nil {
+			if _, present := st.m.Find(st.target); !present {
+				op.key = st.target
 			}
 		}
 		if op.key == nil {
@@ -324,7 +396,7 @@ func runC12(c *fw.C) {
 	default:
 		op.key = st.pool[r.Intn(len(st.pool))]
 	}
-	recName := []string{"persisted", "persisted_dirty_path", "memory", "before_shrink", "grown", "dirty_left_of_target"}[recipe]
+	recName := []string{"persisted", "persisted_dirty_path", "memory", "before_shrink", "grown", "dirty_left_of_target", "before_grow", "dirty_seam_of_new_key"}[recipe]
 	c.Desc("cfg{%s} state=%s(seed %d) entries=%d h=%d op=%s", cfg, recName, seed, st.m.Len(), st.t.Height(), op)
 	// independent predicates used to classify witnesses
 	pre := st.m.Clone()
